@@ -328,6 +328,10 @@ def run(ctx):
     import pskel as _pskel
     _pskel.rule_P_PRIM(ctx)
     _pskel.rule_P_SKELETON(ctx)
+    # naming-law lints over the modules this property lives in (sibling slips: truth<->budget, stamp<->punctuation, left<->right, swapped arguments)
+    import roles as _roles
+    _roles.rule_R_ROLE(ctx, modules=('conversion::string::impl_enum::parser', 'conversion::string::impl_lexical::parser'))
+    _roles.rule_A_NAMES(ctx, modules=('conversion::string::impl_enum::parser', 'conversion::string::impl_lexical::parser'))
     ctx.undecided = ["nothing of substance: determinism of a state-free, deterministic function is the absence of carried state; "
                      "std/dep callees (HashSet iteration order aside, see C06/C07) are assumed deterministic"]
     ctx.assumptions = ["MIR construction and call resolution are correct", "external callees do not keep state between calls"]
